@@ -58,6 +58,44 @@ def aob(c):
     return {"rc": 0, "parsed": 1, "rows": rows, "same_as_t1": 1, "err": ""}
 
 
+class Flaky:
+    """a file-like object over a real file whose read() raises from the (n+1)-th call on (n = None: never); counts the calls"""
+    def __init__(self, path, n=None):
+        self.f, self.n, self.k = open(path, "rb"), n, 0
+
+    def read(self, size=-1):
+        self.k += 1
+        if self.n is not None and self.k > self.n:
+            raise IOError("injected read failure")
+        return self.f.read(size)
+
+    def seek(self, off, whence=0):
+        return self.f.seek(off, whence)
+
+    def tell(self):
+        return self.f.tell()
+
+
+def flaky_values(c, kw):
+    """the same values() request through a file-like object: once counting the read() calls, then once per call made DURING the request
+    with that call (and all later ones) failing - every outcome is reported: an exception, or the array that was returned"""
+    fl = Flaky(c["path"])
+    b = pybigtools.open(fl)
+    k_open = fl.k
+    b.values(c["chrom"], c["s"], c["e"], **kw)
+    k_total = fl.k
+    outs = []
+    for n in range(k_open, k_total):
+        fl = Flaky(c["path"], n)
+        try:
+            b = pybigtools.open(fl)
+            v = b.values(c["chrom"], c["s"], c["e"], **kw)
+            outs.append({"n": n, "result": "ok", "out": [enc(x) for x in v]})
+        except BaseException as ex:
+            outs.append({"n": n, "result": "exception", "out": [], "err": "%s: %s" % (type(ex).__name__, str(ex)[:80])})
+    return {"reads_at_open": k_open, "reads_total": k_total, "faults": outs}
+
+
 def main():
     out = open(sys.argv[3], "w")
     handles = {}
@@ -98,6 +136,9 @@ def main():
                 kw["arr"] = np.full(n, 777.25, dtype=np.float64)
             v = b.values(c["chrom"], c["s"], c["e"], **kw)
             c["obs"] = {"result": "ok", "out": [enc(x) for x in v]}
+            if c.get("flaky"):
+                kw.pop("arr", None)
+                c["obs"]["flaky"] = flaky_values(c, kw)
         except BaseException as ex:      # pyo3 panics surface as PanicException (BaseException)
             c["obs"] = {"result": "exception", "out": [], "err": "%s: %s" % (type(ex).__name__, str(ex)[:200])}
             handles.pop(c.get("path"), None)
